@@ -183,6 +183,15 @@ class C10(Spec):
     def table_obligations(self, repo, tabs):
         return vocab_table_obligations(repo, tabs, extras_only=True) + read_frame_obligations(repo, tabs)
 
+    def failure_kinds(self):
+        return ("F", "S", "X")
+
+    def standins(self, root, tier):
+        from pyvc import driver
+        r = driver.rt_call("pyvc.rt_kw", {"cmd": "search_extras", "root": root}, root, timeout=3000)
+        return [{"name": "inserted-keywords", "scope": "6 base schemas x (annotations, made-up names, the other draft's id spelling, every keyword only other drafts define) x 13 values, inserted at top level and inside the first subschema, 2 instances each; 4-5 sibling sets next to $ref '' / '#' / '#/definitions/t' on 3 recursive instances; identifier-looking objects inside default / examples / unknown keywords / enum next to an unretrievable $ref; x 4 drafts; (keyword, path, schema path) triples compared",
+                 "cases": r["tried"], "failures": r["failures"], "replay_kind": "kw", "label": "bounded (not counted as proof)"}]
+
 
 def write_frame_obligations(repo, tabs, roots, allowed, label):
     """W: every mutation site in the functions reachable from `roots` has a receiver that is fresh in
